@@ -11,6 +11,8 @@ Three sources:
                       removal by role (root, red/black leaf, two children, predecessor is the left child,
                       one child) and aiming at the least-hit insertion/removal rebalancing case
   exhaustive(...)     every insert/remove sequence of a given length over <= maxm elements, keys {0..nkeys-1}
+  gen_raw(rng)        `cfg raw` scripts for the pointer-level model only: insert/remove interleaved with direct calls
+                      of the private helpers rotateLeft(n) / rotateRight(n) (ops `L id` / `R id`)
 """
 import subprocess
 
@@ -148,6 +150,60 @@ def gen_big(rng, pool, every):
     while len(mem) > pool // 4:
         rem()
     return lines
+
+
+def gen_raw(rng, pool=None):
+    """`cfg raw`: the private rotation helpers are called directly (compared with the pointer-level model only, no
+    oracle).  Two flavours:
+      undo   every rotation (`L id` / `R id`; harness and model driver skip one whose own assertion would not hold) is
+             followed by `U` (the inverse rotation), so the tree stays red-black and inserts/removes go on;
+      keep   rotations are kept; afterwards only inserts and further rotations (fix_insert on a consistent search tree
+             that is not red-black cannot dereference null, but may stop in an FRG_ASSERT -- in the real code and in
+             the model at the same op; remove on such a tree has undefined behaviour in the C++ and is not issued)."""
+    pool = pool or rng.choice([4, 6, 8, 12, 16, 24])
+    keyspace = rng.choice(KEYSPACES)
+    flavour = rng.choice(["undo", "undo", "keep"])
+    lines = [_cfg("raw", pool)]
+    mem, free = [], list(range(pool))
+
+    def ins():
+        if free:
+            i = free.pop(rng.randrange(len(free)))
+            lines.append("i %d %d" % (rng.randrange(keyspace), i)); mem.append(i)
+
+    def rem():
+        if mem:
+            i = mem.pop(rng.randrange(len(mem))); free.append(i)
+            lines.append("r %d" % i)
+    for _ in range(rng.randrange(2, pool + 1)):
+        ins()
+    for _ in range(rng.randrange(0, pool // 2)):
+        rem() if rng.random() < 0.5 else ins()
+    p_rot = rng.choice([0.9, 0.6, 0.3])
+    for _ in range(rng.randrange(4, 3 * pool)):
+        r = rng.random()
+        if r < p_rot and mem:
+            i = rng.choice(mem)
+            if flavour == "undo":
+                # both directions at the same node: at most one is applicable; each is undone at once
+                for o in rng.sample(["L", "R"], 2):
+                    lines.append("%s %d" % (o, i)); lines.append("U")
+            else:
+                lines.append("%s %d" % (rng.choice("LR"), i))
+        elif flavour == "keep" or r < p_rot + (1 - p_rot) * 0.6:
+            ins()
+        else:
+            rem()
+    return lines
+
+
+def corpus_raw():
+    cs = []
+    c = lambda name, pool, ops: cs.append(("corpus-raw-" + name, [_cfg("raw", pool)] + ops))
+    c("root-rot", 6, ["i 5 0", "i 3 1", "i 7 2", "L 2", "R 0", "R 1", "L 0"])
+    c("inner-rot-undo", 8, ["i %d %d" % (k, k) for k in range(7)] + ["L 5", "U", "R 1", "U", "L 3", "U", "r 3", "R 2", "U", "L 4", "U", "i 9 7", "r 1"])
+    c("assert-after-rot", 6, ["i 5 0", "i 3 1", "i 7 2", "L 2", "R 1", "R 0", "i 9 3", "i 10 4", "i 1 5"])
+    return cs
 
 
 def corpus():
